@@ -35,6 +35,8 @@ fn probe_program() -> Program {
                 skipped: false,
                 config: false,
                 compactable: false,
+                bitstore: false,
+                bitorder: false,
             })
             .collect(),
         docs: vec![],
@@ -44,6 +46,7 @@ fn probe_program() -> Program {
     let d = |i: usize| Ty::Def(i, vec![]);
     // indices: 0 A, 1 B, 2 C, 3 D, 4 R, 5 S, 6 G, 7 H, 8 Lone
     Program {
+        name_style: 0,
         defs: vec![
             st("A", vec![], vec![f("b", d(1)), f("c", d(2))]),
             st("B", vec![], vec![f("d", d(3))]),
